@@ -338,6 +338,32 @@ fn c05_input_ipa_plain_3() {
 }
 """), shared=[G.SUBRULE_SHARED], functions=["SubRule::input_match_ipa", "Word::seg_length_at"], symbolic="4 bundles (2^160), stress, tone", shape="[x a a a y], input element c", unwind=8, stubs=STUBS, weight=2))
 
+    # ------------------------------------------------------------------ the run-length primitive itself, nothing assumed about the bundles
+    for n_seg in ((3, 4, 5) if tier == "thorough" else (4,)):
+        xs = ["x%d" % i for i in range(n_seg)]
+        nm = "c05_seg_length_any_%d" % n_seg
+        hs.append(G.H(nm, "run-length", "syll", G.T(HDR + """
+fn @name@() {
+    // length of the run that STARTS at pos = 1 + number of immediately following segments bit-equal to it (no assumption:
+    // neighbours may be equal, the position may be in the middle of a longer run)
+@decl@
+    let sy = syll_of(&[@xs@], any_stress(), kani::any());
+    let arr = [@xs@];
+    let pos: usize = kani::any();
+    kani::assume(pos < @n@);
+    let mut exp = 1usize;
+    let mut i = pos + 1;
+    let mut run = true;
+    while i < @n@ { if run && arr[i] == arr[pos] { exp += 1; } else { run = false; } i += 1; }
+    assert!(sy.get_seg_length_at(pos) == exp, "role=run-length");
+    kani::cover!(exp == @n@);
+    kani::cover!(exp == 1 && pos + 1 < @n@);
+    kani::cover!(pos > 0 && arr[pos - 1] == arr[pos] && exp > 1);
+    std::mem::forget(sy);
+}
+""", name=nm, n=n_seg, xs=", ".join(xs), decl="\n".join("    let %s = any_seg();" % x for x in xs)), functions=["Syllable::get_seg_length_at"],
+            symbolic="%d bundles (no distinctness assumed), symbolic position" % n_seg, shape="syllable of %d segments" % n_seg, unwind=8, stubs=STUBS))
+
     # ------------------------------------------------------------------ replace_segment / insert_segment
     for L in ((1, 2, 3) if tier == "thorough" else (2, 3)):
         for (tag, mods, nl) in [("plain", "None", 1), ("long", "Some(ml)", 2), ("overlong", "Some(mo)", 3)]:
